@@ -29,9 +29,21 @@ T = {
  'C19': ('exploration', 'E3', E3, 'Every candidate set up to size 4 in every permutation for every sort policy; node iterator over all bounded histories.', 'DESIGN.md 4/C19'),
  'C20': ('model_checking', 'E3', 'explicit-state BFS over ring-buffer operation sequences with every query in every state against a plain-slice reference; interleaving exploration for the stream', 'All Add/Resize sequences up to the depth and all (start,count) queries in each state.', 'DESIGN.md 4/C20'),
 }
+E2PART = {
+ 'C01': 'S8, S19, S23, S30: a step of the scheduling loop that raises a node\'s allocation leaves its available resources non-negative',
+ 'C02': 'S8, S26, S29: a step of the scheduling loop that raises a queue\'s usage leaves it at or below its maximum',
+ 'C07': 'S4, S13, S14, S18: every allocation marked for preemption was announced exactly once and an announced victim stays marked',
+ 'C08': 'S4, S18: the preempting ledger over queue preemption || quota change preemption',
+ 'C09': 'S1, S10: the four reservation views after scheduling cycle || withdrawal of the ask',
+ 'C10': 'S15, S16, S21, S22, S24: life-cycle rules over timers || event handler || scheduling loop',
+ 'C17': 'S6, S25, S32: a dynamic queue is only created while the user has submit access',
+}
 checks, na = [], []
 for pid in sorted(T):
     level, eng, tech, text, ref = T[pid]
+    if pid in E2PART:
+        tech += '; plus ' + E2 + ' for the part of the property that is about concurrent goroutines (' + E2PART[pid] + ')'
+        text += ' The part that depends on the interleaving of goroutines is decided by enumerating all schedules with at most 1 (quick) / 2 (thorough) preemptions of the listed scenarios.'
     if pid in built:
         checks.append({
             'property_id': pid,
@@ -53,7 +65,7 @@ m = {
            'baseline_off_cmd': '/verif/scripts/baseline_off.sh', 'source_commits': hook_commits, 'add_only': True},
  'engines': [
   {'name': 'E1', 'path': '/verif/harness/internal/mc', 'serves_properties': [p for p in sorted(T) if T[p][1] == 'E1'], 'kind_free_text': 'explicit-state BFS over the real ClusterContext (coordinator + worker processes, replay-based successors)'},
-  {'name': 'E2', 'path': '/verif/harness/internal/ilv', 'serves_properties': ['C14', 'C20'], 'kind_free_text': 'cooperative scheduler at the pkg/locking seam, preemption-bounded DFS'},
+  {'name': 'E2', 'path': '/verif/harness/internal/ilv', 'serves_properties': ['C01', 'C02', 'C07', 'C08', 'C09', 'C10', 'C14', 'C17', 'C20'], 'kind_free_text': 'cooperative scheduler at the pkg/locking seam, preemption-bounded DFS'},
   {'name': 'E3', 'path': '/verif/harness/internal/enum', 'serves_properties': [p for p in sorted(T) if T[p][1] == 'E3'], 'kind_free_text': 'bounded exhaustive enumeration against reference models'},
  ],
  'checks': checks,
